@@ -53,7 +53,7 @@ Qed.
 
 (* ================================================================== accepted paths are unique and
    leaf/node consistent, outside the three defect classes *)
-Definition f20_pair (a b : str) : bool := negb (str_eqb a b) && negb (raw_nested a b) && loc_clash a b.
+Definition f20_pair (a b : str) : bool := negb (str_eqb a b) && negb (raw_nested a b) && (loc_clash a b || lex_clash a b).
 
 Lemma path_function_checked : forall o jobs p ds,
   path_function o jobs p = ROk ds ->
@@ -89,11 +89,13 @@ Proof.
   split.
   - apply (pairwise_from_classes raw_nested f20_pair); auto.
     intros a b Hab Hn Hf. unfold f20_pair in Hf. rewrite Hab, Hn in Hf. simpl in Hf.
+    apply orb_false_iff in Hf. destruct Hf as [Hf _].
     unfold loc_clash in Hf. apply orb_false_iff in Hf. destruct Hf as [Hf _].
     destruct (fpath_eqb (loc_of a) (loc_of b)) eqn:E; auto.
     apply fpath_eqb_eq in E. rewrite E, is_prefix_refl in Hf. discriminate.
   - apply (pairwise_from_classes raw_nested f20_pair); auto.
     intros a b Hab Hn Hf. unfold f20_pair in Hf. rewrite Hab, Hn in Hf. simpl in Hf.
+    apply orb_false_iff in Hf. destruct Hf as [Hf _].
     unfold loc_clash in Hf. rewrite Hf. apply orb_true_r.
 Qed.
 
